@@ -30,3 +30,6 @@
 (assert (forall ((k Str)) (! (= (idxkey k) (or (= (firstcomp k) lit_f) (= (firstcomp k) lit_t) (= (firstcomp k) lit_i) (= (firstcomp k) lit_D))) :pattern ((idxkey k)))))
 ; the first component of a join is its first element when that element is NUL-free
 (assert (forall ((h Str) (t SL)) (! (=> (nozero h) (= (firstcomp (bjoin (scons h t) (bset (bzero 1) 0 0))) h)) :pattern ((bjoin (scons h t) (bset (bzero 1) 0 0))))))
+; a key that extends a prefix of at least two components has that prefix's first component
+(assert (forall ((k Str) (h Str) (t SL)) (! (=> (and (nozero h) (not ((_ is snil) t)) (hasprefix k (bjoin (scons h t) (bset (bzero 1) 0 0)))) (= (firstcomp k) h))
+   :pattern ((hasprefix k (bjoin (scons h t) (bset (bzero 1) 0 0)))))))
